@@ -264,6 +264,7 @@ func modelTar(entries []TarEntry, fx *fixture, root string, endBlocks int) (tarE
 			defined = false
 		}
 		if len(e.RawPax) > 0 || e.PaxLink != "" {
+			labels = append(labels, "pax-records")
 			defined = false
 		}
 		last := i == len(entries)-1
@@ -334,7 +335,7 @@ var plainNames = []string{"extra.txt", "sub/extra.txt", "a/b/c/deep.txt", "manif
 
 func genHostileEntry(t *rapid.T, fx *fixture) TarEntry {
 	e := TarEntry{Type: "reg", Data: []byte("hostile payload")}
-	kind := rapid.SampledFrom([]string{"name", "name", "name", "link", "link", "special", "size", "dup", "pax", "gnu", "prefix", "odd", "plain", "dir"}).Draw(t, "hkind")
+	kind := rapid.SampledFrom([]string{"name", "name", "name", "link", "link", "special", "size", "dup", "pax", "gnu", "prefix", "odd", "plain", "dir", "sparse"}).Draw(t, "hkind")
 	switch kind {
 	case "name":
 		e.Name = rapid.SampledFrom(hostileNames).Draw(t, "hname")
@@ -384,6 +385,13 @@ func genHostileEntry(t *rapid.T, fx *fixture) TarEntry {
 		default:
 			e.RawPax = []string{rapid.SampledFrom([]string{"GNU.sparse.major=1", "GNU.sparse.name=../evil.txt", "SCHILY.xattr.user.x=y", "mtime=1.5", "uid=0", "path="}).Draw(t, "rawpax")}
 		}
+	case "sparse": // PAX GNU sparse 1.0: the payload starts with the hole map; the reader synthesises the holes
+		e.Name = rapid.SampledFrom(plainNames).Draw(t, "pname")
+		real := rapid.SampledFrom([]int{4096, 8192, 65536}).Draw(t, "realsize")
+		block := make([]byte, 512)
+		copy(block, fmt.Sprintf("1\n%d\n0\n", real))
+		e.Data = block
+		e.RawPax = []string{"GNU.sparse.major=1", "GNU.sparse.minor=0", "GNU.sparse.name=" + e.Name, fmt.Sprintf("GNU.sparse.realsize=%d", real)}
 	case "gnu":
 		e.Name = "short.txt"
 		e.GNULong = rapid.SampledFrom(append(append([]string{}, hostileNames...), strings.Repeat("d/", 80)+"long.txt")).Draw(t, "gnulong")
